@@ -70,6 +70,25 @@ def flat(sel, path, keep_placeholder):
     return out
 
 
+def mask_directive_literals(sel):
+    """copy of a selection set in which the names of variables nested in list / object literals of directive arguments are blanked"""
+    def val(v, nested):
+        if v["t"] == "v":
+            return {"t": "v", "n": "_"} if nested else v
+        if v["t"] == "l":
+            return {"t": "l", "l": [val(x, True) for x in v["l"]]}
+        if v["t"] == "o":
+            return {"t": "o", "k": v["k"], "o": [val(x, True) for x in v["o"]]}
+        return v
+    out = []
+    for s in sel:
+        t = dict(s)
+        t["dirs"] = [{"name": d["name"], "args": [{"name": a["name"], "value": val(a["value"], False)} for a in d["args"]]} for d in s["dirs"]]
+        t["sel"] = mask_directive_literals(s["sel"])
+        out.append(t)
+    return out
+
+
 def canon_category(nd, base_nd):
     """coarse name of the difference between two normalized operations that should have been printed identically"""
     if not nd or not base_nd or len(nd["ops"]) != 1 or len(base_nd["ops"]) != 1:
@@ -110,7 +129,10 @@ def canon_category(nd, base_nd):
         return [(p, n, re.sub(r'"n": "([^"]*)", "t": "v"', num, a1), re.sub(r'"n": "([^"]*)", "t": "v"', num, d)) for (p, n, a1, d) in xs]
 
     if uniq(renumbered(flat(a["sel"], [], False))) == uniq(renumbered(flat(b["sel"], [], False))):
-        return "variable-names"                # same fields and the same sharing of variables, only their names differ
+        # same fields and the same sharing of variables, only their names differ
+        if uniq(flat(mask_directive_literals(a["sel"]), [], False)) == uniq(flat(mask_directive_literals(b["sel"]), [], False)):
+            return "variable-names-in-directive-literal"   # ... and only of variables nested in a list / object literal of a directive argument
+        return "variable-names"
     if uniq(novars(flat(a["sel"], [], False))) == uniq(novars(flat(b["sel"], [], False))):
         return "variable-sharing"              # same fields, the arguments use variables that are shared differently
     return "other"
@@ -187,6 +209,10 @@ def process(ctx, binary, catalog_path, cases, n1, n3):
         for b in ex.map(lambda a: run_trace(ctx, a[0], a[1]), list(enumerate(chunks))):
             bad.update(b)
     ndocs = {t["id"]: t["ndoc"] for t in trace}
+    COLLISION = "VariablesUnique/directive-literal-variable"
+    for b in bad.values():
+        if COLLISION in b["tokens"]:
+            b["tokens"] = [COLLISION]  # two variables under one name: every other broken rule of that operation is a consequence
 
     def cause(cid):
         """name of what TLC found wrong with the normalized operation of this case ('-' = nothing)"""
